@@ -105,6 +105,9 @@ LINES_W = [
     ["w"],
     ["lit:set system domain-name ", "w", "lit:.net;"],
     ["lit: neighbor ", "w0", "lit: peer-group ", "w0", "lit:-", "w1"],
+    ["lit: ip route ", "a4", "lit: ", "k4", "lit: name ", "w", "lit: tag 17"],
+    ["lit:  description \"", "w", "lit: core via ", "a6", "lit:\" (AS ", "as", "lit:)"],
+    ["lit: neighbor ", "a4", "lit: remote-as ", "as", "lit: description ", "w", "lit:-edge"],
     ["lit:vrf ", "w0", "lit: description ", "w0", "lit:->", "w1", "lit: ", "w1"],
     ["lit: match community ", "w1", "lit:_", "w0", "lit: ", "w0"],
 ]
@@ -303,6 +306,9 @@ TEMPLATES = [
     ("set system license keys key \"{}\"", ALL, "keep"),
     ("key-hash sha256 {}", ALL, "keep"),
     ("set community {} trailing text", ("text",), "keep"),
+    (" neighbor {ip} description uplink-peer password 7 {}", ALL, "keep"),
+    ("tacacs-server host {ip} port 49 timeout 3 key 7 {}", ALL, "keep"),
+    ("snmp-server host {ip} traps version 2c {} udp-port 162", ALL, "keep"),
     ("snmp-server mib community-map {}:100 context public1", ALL, "keep"),
     ("rf-switch snmp-community {}", ALL, "keep"),
     ("my hash is {}", ("md5", "j9"), "keep"),
